@@ -10,7 +10,7 @@
      (symbolcls(f'{name}{bin2canon[k][1:]}')) are one placeholder per key, [sym : Z -> R];
    - `grades=` is a tuple of ints (negative ones are possible and rejected):   [option (list Z)];
    - keyword blades `**items`: association list spelling -> value in call order.  A keyword is modelled
-     by the digits of key[1:] (the Python never looks at key[0] unless the name resolves to a blade);
+     by the digits of key[1:] (the Python looks at key[0] only through `key in canon2bin`);
      characters that are not hex digits are encoded by the caller as numbers that are no generator;
    - an attribute name is [SName n] when it matches  ^e[0-9a-fA-F]*$  (n = its digits), else [SOther].
    Algebra._blade2canon is Model/Alg.v [blade2canon]: (Some canonical name | None = outside the algebra, swaps). *)
@@ -159,20 +159,11 @@ Section Construct.
   Definition grade_range_ok (g : list Z) : bool :=
     forallb (fun x => (0 <=? x) && (x <=? Z.of_nat (a_d A))) g.
 
-  Definition construct (inp : input R) : res (mv R) :=
-    (* if items and keys is None and values is None: *)
-    '(keys0, values0) <-
-       (match i_items inp, i_keys inp, i_values inp with
-        | _ :: _, None, VNone => '(ks, vs) <- kw_normalise (i_items inp) ;; Ok (Some ks, VList vs)
-        | _, _, _ => Ok (i_keys inp, i_values inp)
-        end) ;;
-    (* if keys is not None and not all(isinstance(k, int) for k in keys): *)
-    keys1 <- (match keys0 with
-              | None => Ok None
-              | Some ks => zs <- sanitize ks ;; Ok (Some zs)
-              end) ;;
+  (* everything after the keyword-blade block and the first sanitation of `keys`:
+     keys1 = the int keys (None when keys= was not given), values0 = values as given *)
+  Definition core (keys1 : option (list Z)) (values0 : vals R) (nm : bool) (g0 : option (list Z)) : res (mv R) :=
     (* if grades is None and name and keys is not None: *)
-    let grades1 := match i_grades inp, i_name inp, keys1 with
+    let grades1 := match g0, nm, keys1 with
                    | None, true, Some zs => Some (grades_of_keys zs)
                    | g, _, _ => g
                    end in
@@ -185,10 +176,10 @@ Section Construct.
                              | _ => grades_of_keys keys
                              end)
                end) ;;
-    (* if algebra.graded and keys and keys != algebra.indices_for_grades[grades]: *)
+    (* if algebra.graded and keys and tuple(keys) != algebra.indices_for_grades[grades]: *)
     chk <- (if a_graded A && negb (isnil keys)
-          then full <- ifg grades ;; if list_eqb Z.eqb keys full then Ok tt else Err EValue
-          else Ok tt) ;;
+            then full <- ifg grades ;; if list_eqb Z.eqb keys full then Ok tt else Err EValue
+            else Ok tt) ;;
     (* the kind of input *)
     '(keysk, values) <-
        (match values0 with
@@ -203,7 +194,7 @@ Section Construct.
             let vs := match values0 with VList l => l | _ => [] end in
             full <- ifg grades ;;
             if Nat.eqb (length vs) (length full) && isnil keys then Ok (map KInt full, vs)
-            else if i_name inp && isnil vs then
+            else if nm && isnil vs then
               let ks := if isnil keys then full else keys in
               vs' <- mapM_res (fun k => match bin2canon A k with Some _ => Ok (sym k) | None => Err EKey end) ks ;;
               Ok (map KInt ks, vs')
@@ -215,6 +206,20 @@ Section Construct.
     (* if not set(keys) <= set(algebra.indices_for_grades[grades]): *)
     full <- ifg grades ;;
     if forallb (fun k => zin k full) keys8 then Ok (combine keys8 values) else Err EValue.
+
+  Definition construct (inp : input R) : res (mv R) :=
+    (* if items and keys is None and values is None: *)
+    '(keys0, values0) <-
+       (match i_items inp, i_keys inp, i_values inp with
+        | _ :: _, None, VNone => '(ks, vs) <- kw_normalise (i_items inp) ;; Ok (Some ks, VList vs)
+        | _, _, _ => Ok (i_keys inp, i_values inp)
+        end) ;;
+    (* if keys is not None and not all(isinstance(k, int) for k in keys): *)
+    keys1 <- (match keys0 with
+              | None => Ok None
+              | Some ks => zs <- sanitize ks ;; Ok (Some zs)
+              end) ;;
+    core keys1 values0 (i_name inp) (i_grades inp).
 
   (* ---------------- Algebra convenience constructors ---------------- *)
   Definition with_grades (g : list Z) (inp : input R) : input R :=
